@@ -400,8 +400,99 @@ fn run_cache_node(seed: u64, n: u64, out: &mut Out, public: bool) -> (u64, Vec<V
     (lines, samples)
 }
 
+/// Through the PUBLIC blocking API of a threaded node: an application that holds the iterator of a lookup without reading it
+/// (24 storing peers answer with a value each) and makes another call meanwhile. The other call returns, and the iterator then
+/// yields what the lookup delivered and ends.
+pub fn unread_stream(b: u64, seed: u64, kind: &str) -> Value {
+    let mut sim = Sim::new(seed ^ (b * 131 + 7), NetCfg { lat_min_ms: 1, lat_max_ms: 3, ..Default::default() });
+    let mut rng = crate::rng::Rng::new(seed ^ b ^ 0x51);
+    let n = 24usize;
+    let ids: Vec<[u8; 20]> = (0..n).map(|_| rng.id()).collect();
+    let sk = crypto::keypair(5);
+    let pk = sk.verifying_key().to_bytes();
+    let target = if kind == "mutable" { crypto::mutable_target(&pk, None) } else { crypto::sha1(format!("unread {b}").as_bytes()) };
+    let all: Vec<([u8; 20], std::net::SocketAddrV4)> = ids.iter().enumerate().map(|(i, id)| (*id, std::net::SocketAddrV4::new(fake_ip(i), 6881))).collect();
+    let nodes = krpc::compact_nodes(&all);
+    let kind2 = kind.to_string();
+    let sk2 = sk.clone();
+    let policy: Policy = Box::new(move |me, m, w| {
+        let q = m.q.clone().unwrap_or_default();
+        if m.target() != Some(target) {
+            return Reply::Default;
+        }
+        match (q.as_str(), kind2.as_str()) {
+            ("get_peers", "peers") => Reply::One(lookup_reply(&nodes, me, m, w, &[("values", B::List(vec![B::bytes(&[10, 9, 0, me.idx as u8 + 1, 0x1a, 0xe1][..])]))], true), 5 + me.idx as u64),
+            ("get", "mutable") => {
+                let val = format!("v{}", me.idx).into_bytes();
+                let sig = crypto::sign_mutable(&sk2, 7, &val, None);
+                Reply::One(lookup_reply(&nodes, me, m, w, &[("v", B::bytes(&val)), ("k", B::bytes(&pk[..])), ("seq", B::Int(7)), ("sig", B::bytes(&sig[..]))], true), 5 + me.idx as u64)
+            }
+            _ => Reply::Default,
+        }
+    });
+    let net = FakeNet::install(&mut sim, &ids, policy);
+    let c = sim.add_node(NodeOpts::client(private_ip(3), &net.bootstrap()).threaded());
+    sim.run_for(2500);
+    let d = sim.dht(c);
+    let before = v::dht_queue_len(&d);
+    let other_target = rng.id();
+    let (kind3, d2) = (kind.to_string(), d.clone());
+    let h = std::thread::spawn(move || {
+        // the iterator is created (the lookup starts) and left alone while another call is made
+        if kind3 == "mutable" {
+            let it = d2.get_mutable(&pk, None, None);
+            let closest = d2.find_node(Id::from(other_target));
+            (closest.len(), it.count())
+        } else {
+            let it = d2.get_peers(Id::from(target));
+            let closest = d2.find_node(Id::from(other_target));
+            (closest.len(), it.count())
+        }
+    });
+    let t0 = std::time::Instant::now();
+    while v::dht_queue_len(&d) == before && !h.is_finished() && t0.elapsed() < WATCHDOG {
+        std::thread::yield_now();
+    }
+    sim.poke(c);
+    let limit = sim.now_ns() + 30_000 * MS;
+    while !h.is_finished() && sim.now_ns() < limit && sim.nodes[c].alive {
+        sim.step(limit);
+        if sim.pending_datagrams() == 0 {
+            std::thread::sleep(std::time::Duration::from_micros(50));
+        }
+    }
+    let (returned, closest, items) = if h.is_finished() {
+        match h.join() {
+            Ok((c, i)) => (true, c as i64, i as i64),
+            Err(_) => (false, -2, -2),
+        }
+    } else {
+        (false, -1, -1) // the helper is leaked; the node is shut down below
+    };
+    let (hung, panicked) = (sim.nodes[c].hung, sim.nodes[c].panicked);
+    sim.shutdown();
+    json!({"e":"unread","b":b,"kind":kind,"returned":returned,"closest":closest,"items":items,"node_hung":hung,"panicked":panicked,
+        "plan":{"scenario":"unread_stream","kind":kind,"storing_peers":n}})
+}
+
 pub fn run(args: &Args) -> i32 {
     let seed = args.u64("seed", 1);
+    if args.get("unread").is_some() {
+        let mut out = Out::create(&args.str("out", "/verif/work/C06/trace-unread.ndjson"));
+        let mut lines = 0;
+        for rep in 0..args.u64("unread", 1) {
+            for (i, kind) in ["peers", "mutable"].iter().enumerate() {
+                out.line(&unread_stream(900_000 + rep * 10 + i as u64, seed, kind));
+                lines += 1;
+            }
+        }
+        out.finish();
+        if let Some(p) = args.get("summary") {
+            crate::util::write_json(p, &json!({"runs": lines, "distinct_nontrivial": lines, "samples": []}));
+        }
+        println!("query driver (unread streams): runs={lines}");
+        return 0;
+    }
     if let Some(n) = args.get("cache") {
         let mut out = Out::create(&args.str("out", "/verif/work/C20/trace.ndjson"));
         let (lines, samples) = run_cache(seed, n.parse().unwrap_or(1200), &mut out);
